@@ -593,6 +593,13 @@ type rig struct {
 
 	llCA    *gcsca.CertificateAuthority
 	llStore *rStore
+
+	// longKM: keep ONE key manager value and its signer across commands (a long-running process that rotates more
+	// than once), instead of building them per command like the CLI does. Whatever the manager value remembers from
+	// an earlier command is then still there in the next one.
+	longKM   bool
+	llSigner *nonprod.Signer
+	llMgr    keys.ManagerInterface
 }
 
 func (g *rig) raw() storagei.Client {
@@ -606,7 +613,10 @@ func (g *rig) raw() storagei.Client {
 }
 
 // drop forgets the long-lived authority value (the process ended, or the state underneath was replaced).
-func (g *rig) drop() { g.llCA, g.llStore = nil, nil }
+func (g *rig) drop() {
+	g.llCA, g.llStore = nil, nil
+	g.llSigner, g.llMgr = nil, nil
+}
 
 func (g *rig) restore(s *authority.Snap) {
 	g.a.Restore(s)
@@ -615,6 +625,20 @@ func (g *rig) restore(s *authority.Snap) {
 
 // keyComponents is what a new process sees: memkm keeps its keys, localkm reloads them from its directory.
 func (g *rig) keyComponents() (*nonprod.Signer, keys.ManagerInterface, error) {
+	if g.longKM {
+		if g.llMgr == nil {
+			s, m, err := g.freshKeyComponents()
+			if err != nil {
+				return nil, nil, err
+			}
+			g.llSigner, g.llMgr = s, m
+		}
+		return g.llSigner, g.llMgr, nil
+	}
+	return g.freshKeyComponents()
+}
+
+func (g *rig) freshKeyComponents() (*nonprod.Signer, keys.ManagerInterface, error) {
 	if g.a.KM == authority.MemKM {
 		return g.a.MemSigner, &memkm.T{Signer: g.a.MemSigner}, nil
 	}
